@@ -178,7 +178,8 @@ def coq_case(o: Obs, spans) -> str:
         '(' + o.tree + ')', lex(o.built), common.coq_bool(o.is_file),
         f'({common.coq_z(o.root[0])}, {common.coq_z(o.root[1])})',
         lex((type(t).RULE, t.raw_text) for t in o.store),
-        common.coq_list(f'({common.coq_z(a)}, {common.coq_z(b)})' for a, b in spans)]) + ')')
+        common.coq_list(f'({common.coq_z(a)}, {common.coq_z(b)})' for a, b in spans),
+        common.coq_bool(o.acc)]) + ')')
 
 
 # ---------------------------------------------------------------------------------------------
@@ -200,8 +201,6 @@ def monitor(o: Obs):
     concat_ok = ''.join(texts) == o.text
     if not concat_ok:
         fails.append(('C01:store-concat', 'the concatenation of all tokens in the store is not the input text'))
-    if o.out_teed != o.lex_out:
-        fails.append(('C01:stream-not-kept', 'ModelBuilder did not receive exactly the post-lexed stream'))
     printed = print_of(o.model)
     fi, li = idx.get(id(o.model.first_token), -1), idx.get(id(o.model.last_token), -1)
     if printed != o.text:
@@ -244,9 +243,10 @@ TAGS = ['#tag', '^link', '#a-b_c/d.e', '^2000-01']
 KEYS = ['aa:', 'key-1:', 'some_key:', 'zZ9:']
 DATES = ['2000-01-01', '2012/2/3', '9999-12-31', '1999-1/09']
 NUMS = ['1', '1.5', '1,000.00', '10.', '0.0001', '123456789']
-INLINE_COMMENTS = ['; c', ';', ';; x ü', '; a ; b', ';\t tab ']
+INLINE_COMMENTS = ['; c', ';', ';; x ü', '; a ; b', ';\t tab ', '; end\u00a0']
 IGNORED_LINES = ['* Heading', '** sub', '# hash', ': colon', '! bang', 'Something else', '*', 'P odd']
-BLOCK_COMMENT_BODIES = ['; c', ';', ';;; 注释', '; x "y" {z}', ';2000-01-01 open A:B']
+BLOCK_COMMENT_BODIES = ['; c', ';', ';;; 注释', '; x "y" {z}', ';2000-01-01 open A:B', '; trailing blanks  ', ';\t',
+                        '; \u00a0nbsp\u3000']
 
 
 class Gen:
@@ -508,11 +508,11 @@ def gen_inputs(ctx):
     for rule, text in CORPUS:
         yield rule, text, 'corpus'
     rules = sorted(e['targets'])
-    n_led = ctx.scale(70, 900)
+    n_led = ctx.scale(160, 900)
     for k in range(n_led):
         g = Gen(ctx.rng)
         yield 'file', g.ledger(ctx.rng.choice([1, 2, 3, 5, 8] if ctx.quick else [1, 3, 6, 12, 25])), 'ledger'
-    per_rule = ctx.scale(3, 30)
+    per_rule = ctx.scale(5, 30)
     for rule in rules:
         if rule == 'file':
             continue
@@ -634,6 +634,7 @@ CODE_WHAT = {1: 'H-tile fails: the lexeme values entering PostLex do not concate
              6: 'first_token/last_token of the returned model differ from the span Builder.v computes',
              7: 'comment claiming changed more than the position of zero-width tokens',
              8: 'a sub-model span is not a segment of the store (first <= last, both in the store)',
+             9: 'first_token/last_token of a nested sub-model differ from the span Builder.v computes',
              -1: 'the case could not be evaluated'}
 
 
@@ -670,6 +671,9 @@ def run_cases(ctx, inputs, record=True):
                     if v:
                         ctx.dist('feature=' + k)
                 ctx.count('submodels_checked', len(spans))
+            if o.out_teed != o.lex_out:
+                ctx.fail('corr', 'stream-not-kept', 'ModelBuilder did not receive exactly the stream leaving '
+                         'PostLex.process', {'text': text, 'target': rule, 'auto_claim_comments': acc})
             cases.append(coq_case(o, spans))
             metas.append((rule, text, acc))
     # chunk by size: keep each generated file below ~250 KB
